@@ -203,7 +203,7 @@ distinct = distinct (size value, pair class) + type codes + layout headers; orac
     // ---- layout: distinct field values at their offsets -------------------------------------
     let n_layout = ctx.tier.pick(20_000, 2_000_000);
     for i in 0..n_layout {
-        if i % 16 == 1 {
+        if i % 128 == 1 {
             crate::props::poison::run(i as u64);
         }
         let mut d = crate::enc::Distinct::new(&mut rng);
@@ -359,7 +359,7 @@ distinct = distinct (size value, pair class) + type codes + layout headers; orac
     // sampled 2^32 count/number space on the variable-length and boundary sizes
     let n_rand = ctx.tier.pick(200_000, 12_000_000);
     for i in 0..n_rand {
-        if i % 16 == 1 {
+        if i % 128 == 1 {
             crate::props::poison::run(i as u64);
         }
         let size = *rng.pick(&[0xFFFFu16, 0xFFFF, 0xFFFE, 0x8000, 0x7FFF, 0, 1216]);
